@@ -578,7 +578,7 @@ def shards(tier, seed):
     for i, (port, kind, w) in enumerate(combos):
         out.append(dict(idx=i, tier=tier, seed=seed * 1000 + i, port=port, kind=kind, dw=w,
                         ncfg=(3 if quick else 8) if kind == "bist" else (8 if quick else 40),
-                        ncases=(100 if quick else 1500) if kind == "bist" else (25 if quick else 150)))
+                        ncases=(180 if quick else 1500) if kind == "bist" else (40 if quick else 150)))
     return out
 
 
